@@ -39,7 +39,18 @@ impl TypeRegistry {
             .collect()
     }
 
+    #[cfg_attr(feature = "verif", allow(unreachable_code))]
     pub(crate) fn unresolved(&self) -> Vec<ItemPath> {
+        #[cfg(feature = "verif")]
+        {
+            let paths = self
+                .types
+                .iter()
+                .filter(|(_, t)| !t.is_predefined() && !t.is_resolved())
+                .map(|(k, _)| k.clone())
+                .collect();
+            return crate::verif::schedule(paths);
+        }
         self.types
             .iter()
             .filter(|(_, t)| !t.is_predefined() && !t.is_resolved())
